@@ -9,7 +9,7 @@
    repaired ([early] = false: needsInitialSignal is read under the lock after the socket pair and the thread exist).
    With the order the code had before ([early] = true) an event-driven internal thread can lose a wake-up
    (ThreadQProofs.evd_lost_wakeup_refuted). *)
-From Coq Require Import List Arith Bool Lia.
+From Coq Require Import List Arith Bool Lia NArith.
 From Muscle Require Import Conc.ThreadQ Conc.ThreadQWf.
 Import ListNotations.
 
@@ -100,28 +100,35 @@ Lemma readable_CO_same : forall g g', g_sockets g' = g_sockets g -> ch g' CO = c
   g_iopen g' = g_iopen g -> readable g' CO = readable g CO.
 Proof. intros g g' H1 H2 H3 H4. unfold readable. simpl in *. rewrite H1, H2, H3, H4. reflexivity. Qed.
 
-Lemma signal_CI_readable : forall g g' e, signal CI g = (g', e) ->
+Lemma wc_inc_pos : forall nl old, (0 < nl)%N -> N.ltb 0 (wc_inc nl old) = true.
+Proof.
+  intros nl old H. unfold wc_inc. apply N.ltb_lt.
+  destruct (N.ltb_spec old ((old + 1) mod 4294967296)); lia.
+Qed.
+
+Lemma signal_CI_readable : forall nl g g' e, (0 < nl)%N -> signal nl CI g = (g', e) ->
   (g_sockets g = true -> g_alloc g = true /\ g_iopen g = true) -> readable g' CI = true.
 Proof.
-  intros g g' e H Hs. unfold signal in H. destruct (g_sockets g) eqn:Es.
+  intros nl g g' e Hnl H Hs. unfold signal in H. destruct (g_sockets g) eqn:Es.
   - destruct (Hs eq_refl) as [Ha Ho]. rewrite Ha, Ho in H. inv H. unfold readable; simpl. rewrite Es. reflexivity.
-  - inv H. unfold readable; simpl. rewrite Es. reflexivity.
+  - inv H. unfold readable; simpl. rewrite Es. apply wc_inc_pos; exact Hnl.
 Qed.
 
-Lemma signal_CO_readable : forall g g' e, signal CO g = (g', e) ->
+Lemma signal_CO_readable : forall nl g g' e, (0 < nl)%N -> signal nl CO g = (g', e) ->
   (g_sockets g = true -> g_alloc g = true) -> readable g' CO = true.
 Proof.
-  intros g g' e H Hs. unfold signal in H. destruct (g_sockets g) eqn:Es.
+  intros nl g g' e Hnl H Hs. unfold signal in H. destruct (g_sockets g) eqn:Es.
   - rewrite (Hs eq_refl) in H. simpl in H. destruct (g_iopen g) eqn:Eo; inv H; unfold readable; simpl; rewrite ?Es; simpl;
       rewrite ?(Hs eq_refl), ?Eo; simpl; auto using orb_true_r.
-  - inv H. unfold readable; simpl. rewrite Es. reflexivity.
+  - inv H. unfold readable; simpl. rewrite Es. apply wc_inc_pos; exact Hnl.
 Qed.
 
-Lemma signal_readable_mono : forall c c' g g' e, signal c g = (g', e) -> readable g c' = true -> readable g' c' = true.
+Lemma signal_readable_mono : forall nl c c' g g' e, (0 < nl)%N -> signal nl c g = (g', e) -> readable g c' = true -> readable g' c' = true.
 Proof.
-  intros c c' g g' e H R. unfold signal in H. unfold readable in *.
+  intros nl c c' g g' e Hnl H R. unfold signal in H. unfold readable in *.
   destruct c, c', (g_sockets g) eqn:Es, (g_alloc g) eqn:Ea, (g_iopen g) eqn:Eo; simpl in *; inv H; simpl;
     rewrite ?Es, ?Ea, ?Eo; simpl; auto;
+    try (apply wc_inc_pos; exact Hnl);
     try (apply Nat.ltb_lt in R; apply Nat.ltb_lt; lia);
     try (apply orb_true_iff in R; destruct R as [R|R]; [apply Nat.ltb_lt in R | discriminate]; apply orb_true_iff; left; apply Nat.ltb_lt; lia).
 Qed.
@@ -238,14 +245,16 @@ Qed.
 
 Section Wake.
 Variable absorb_n : nat.
+Variable no_limit : N.
 Variable react : nat -> list msg * bool.
+Hypothesis Hnl : (0 < no_limit)%N.
 
 (* StartInternalThread as repaired *)
-Notation Step := (Step false absorb_n react).
+Notation Step := (Step false absorb_n no_limit react).
 
 (* frames of a user thread's step with respect to the internal thread's queue *)
 Ltac sig_frame Hs :=
-  let F := fresh "F" in pose proof (signal_frame _ _ _ _ Hs) as F;
+  let F := fresh "F" in pose proof (signal_frame _ _ _ _ _ Hs) as F;
   destruct F as (F1 & F2 & F3 & F4 & F5 & F6 & F7 & F8 & F9 & F10 & F11 & F12).
 
 Lemma A_i_user_step : forall s t p k c g' l' e',
@@ -340,7 +349,7 @@ Proof.
   pose proof (wf_wfg _ _ _ W) as Wg.
   assert (Hi : ipc_ok (mkL p k)) by (rewrite <- El; apply (wf_ipc _ _ _ W); exact Hl).
   destruct Wk as [Ai Ao Po].
-  pose proof (Step_const _ _ _ _ _ _ _ _ _ Hst) as [Hc1 Hc2].
+  pose proof (Step_const _ _ _ _ _ _ _ _ _ _ Hst) as [Hc1 Hc2].
   assert (Look : forall q, will_look (g_evd (s_g s)) q = true -> l_pc l' = q -> A_i (mkS (set_il l' g') (s_l s))).
   { intros q Hq Hp. apply A_i_looks. simpl. rewrite Hc2, Hp. exact Hq. }
   assert (Keep : g_ist g' = g_ist (s_g s) -> c_q (g_ci g') = c_q (g_ci (s_g s)) ->
@@ -387,7 +396,7 @@ Proof.
   - (* 10 *)
     destruct (g_evd (s_g s)) eqn:Ee; [apply Keep; auto | eapply Look; [|reflexivity]; reflexivity].
   - (* 11 *)
-    match goal with Hs : signal _ _ = _ |- _ => sig_frame Hs end.
+    match goal with Hs : signal _ _ _ = _ |- _ => sig_frame Hs end.
     destruct (g_evd (s_g s)) eqn:Ee; [|eapply Look; [|reflexivity]; reflexivity].
     apply Keep; auto.
     + destruct (F9 CI) as (Q & _). exact Q.
@@ -460,7 +469,7 @@ Proof.
              try (intros R; rewrite readable_set_enq; exact R);
              try (rewrite El; reflexivity).
     + (* the signal *)
-      match goal with Hs : signal _ _ = _ |- _ => pose proof Hs as Hsig; sig_frame Hs end.
+      match goal with Hs : signal _ _ _ = _ |- _ => pose proof Hs as Hsig; sig_frame Hs end.
       destruct x.
       * apply A_o_transfer; auto;
           try (rewrite parked_o_other by auto; auto; fail);
@@ -501,7 +510,7 @@ Proof.
   - (* 2: the reply's signal *)
     destruct x; try contradiction.
     unfold A_o. intros Pk _. left. simpl.
-    match goal with Hs : signal _ _ = _ |- _ => pose proof Hs as Hsig; sig_frame Hs end.
+    match goal with Hs : signal _ _ _ = _ |- _ => pose proof Hs as Hsig; sig_frame Hs end.
     assert (Pk0 : parked_o s = true).
     { unfold parked_o in *. simpl in Pk. rewrite F1, F3 in Pk. exact Pk. }
     assert (R : readable g' CO = true) by (eapply signal_CO_readable; eauto; intros; eapply parked_alloc; eauto).
@@ -524,7 +533,7 @@ Proof.
     destruct x; [|destruct k as [|[] [|? ?]]; contradiction].
     apply A_o_transfer_int; auto; try (rewrite El; reflexivity).
   - (* 7: the start-up signal *)
-    match goal with Hs : signal _ _ = _ |- _ => pose proof Hs as Hsig; sig_frame Hs end.
+    match goal with Hs : signal _ _ _ = _ |- _ => pose proof Hs as Hsig; sig_frame Hs end.
     apply A_o_transfer_int; auto;
       try (destruct (F9 CO) as (Q & _); exact Q);
       try (intros R; eapply signal_readable_mono; eauto);
@@ -549,7 +558,7 @@ Lemma Step_alloc : forall c g l g' l' ev, Step c g l g' l' ev ->
 Proof.
   intros c g l g' l' ev HS. inversion HS; subst; clear HS; simpl; eauto;
     try (left;
-         try match goal with Hs : signal _ _ = _ |- _ => apply signal_frame in Hs end;
+         try match goal with Hs : signal _ _ _ = _ |- _ => apply signal_frame in Hs end;
          try match goal with x : chanid |- _ => destruct x end; simpl; tauto).
   - left. pose proof (absorb_frame absorb_n x g). simpl in *. tauto.
 Qed.
@@ -560,7 +569,7 @@ Lemma Step_qi_user : forall t c g l g' l' ev, upc_ok t l -> Step c g l g' l' ev 
 Proof.
   intros t c g l g' l' ev Hu HS. inversion HS; subst; clear HS; unfold upc_ok in Hu; simpl in Hu; try contradiction; auto;
     try (left; reflexivity);
-    try (left; match goal with Hs : signal _ _ = _ |- _ => apply signal_frame in Hs; destruct Hs as (_&_&_&_&_&_&_&_&Hs&_); destruct (Hs CI) as (Q&_); exact Q end);
+    try (left; match goal with Hs : signal _ _ _ = _ |- _ => apply signal_frame in Hs; destruct Hs as (_&_&_&_&_&_&_&_&Hs&_); destruct (Hs CI) as (Q&_); exact Q end);
     try (destruct x; simpl in Hu; try (destruct k; contradiction); first [left; reflexivity | right; eexists; reflexivity]);
     try (left; pose proof (absorb_frame absorb_n x g) as F; simpl in F; destruct F as (_&_&_&_&_&_&_&_&F&_); destruct (F CI) as (Q&_); exact Q);
     try (left; pose proof (alloc_frame g) as F; simpl in F; destruct F as (_&_&_&_&_&_&F); destruct (F CI) as (Q&_); exact Q);
@@ -586,8 +595,8 @@ Qed.
 Variable ok : label -> bool.
 Variables smode emode : bool.
 
-Notation sys_step := (sys_step false absorb_n react).
-Notation reachable_if := (reachable_if false absorb_n react).
+Notation sys_step := (sys_step false absorb_n no_limit react).
+Notation reachable_if := (reachable_if false absorb_n no_limit react).
 
 Lemma wake_init : wake (sys0 smode emode).
 Proof.
@@ -632,7 +641,7 @@ Proof.
       * simpl. intros Hq. exfalso. eapply O3; eauto.
       * apply Po.
   - (* a user thread's step *)
-    destruct (step false absorb_n react c (s_g s) (s_l s t)) as [[[g' l'] e']|] eqn:Hst; [|discriminate]. inv H.
+    destruct (step false absorb_n no_limit react c (s_g s) (s_l s t)) as [[[g' l'] e']|] eqn:Hst; [|discriminate]. inv H.
     apply step_spec in Hst.
     destruct (s_l s t) as [p k] eqn:El.
     assert (Hu : upc_ok t (mkL p k)) by (rewrite <- El; apply (wf_upc _ _ _ W)).
@@ -650,7 +659,7 @@ Proof.
         -- subst p. unfold upc_ok in Hu. simpl in Hu. destruct k; [congruence | contradiction].
   - (* the internal thread's step *)
     destruct (g_ist (s_g s)) eqn:Hl; try discriminate.
-    destruct (step false absorb_n react c (s_g s) (g_il (s_g s))) as [[[g' l'] e']|] eqn:Hst; [|discriminate]. inv H.
+    destruct (step false absorb_n no_limit react c (s_g s) (g_il (s_g s))) as [[[g' l'] e']|] eqn:Hst; [|discriminate]. inv H.
     apply step_spec in Hst.
     destruct (g_il (s_g s)) as [p k] eqn:El.
     assert (Hi : ipc_ok (mkL p k)) by (rewrite <- El; apply (wf_ipc _ _ _ W); exact Hl).
